@@ -53,6 +53,16 @@ def trigger_documents(tier):
     out.append('intro\n\n{|\n|-\n| colspan="99999999999" | ' + ("word " * 600) + '\n| b\n| c\n|}\n')
     out.append('intro\n\n{|\n|-\n| colspan="3000000" | ' + ("word " * 1100) + '\n| b\n|}\n')
     out.append('{|\n|-\n| rowspan="99999999999" | a\n| b\n|-\n| c\n|}\n')
+    # a table row whose cells hold only lists of different lengths (split_table_lists pads the shorter columns)
+    for la, lb in ((7, 2), (6, 5), (8, 0), (7, 3)):
+        ca = "\n".join(f"* a{i}" for i in range(la))
+        cb = "\n".join(f"* b{i}" for i in range(lb))
+        out.append(f"{{|\n|-\n|\n{ca}\n|\n{cb}\n|\n* c0\n* c1\n* c2\n|}}\n")
+    # captions of tables that get dissolved (single cell / single column), also holding a list or a nested table
+    out.append("<table><caption><ul><li>a</li></ul></caption><tr><td>x</td></tr></table>")
+    out.append("{|\n|+ cap ''tion''\n|-\n| only cell\n|}\n")
+    out.append("<table><table><caption><table><td>u")
+    out.append("{|\n|+ cap\n|-\n|\n{|\n|+ inner cap\n|-\n| inner cell\n|}\n|}\n")
     # lengths in every unit the style parser knows, and in none (scale_length)
     for h in ("300px", "300pt", "30em", "50%", "300", "auto", "", "1e3px", "-5px"):
         out.append(f'<div style="overflow:auto; height:{h}">scrolling text</div>\n\nafter')
